@@ -48,13 +48,22 @@ class Storage:
 
 
 class View:
-    __slots__ = ("st", "off", "strides", "shape")
+    """(offset, strides, shape) view of a storage.  `dims` remembers, for every
+    dimension of the tensor the view was (transitively) cut from, its extent and
+    where the view sits in it: (extent, point index | None, interval lo, window dim)
+    -- used to check every *dereference* against the underlying tensor; forming an
+    out-of-range window is not an event by itself (masked instructions do that)."""
 
-    def __init__(self, st, off, strides, shape):
+    __slots__ = ("st", "off", "strides", "shape", "dims")
+
+    def __init__(self, st, off, strides, shape, dims=None):
         self.st = st
         self.off = off
         self.strides = tuple(strides)
         self.shape = tuple(shape)
+        if dims is None:
+            dims = tuple((int(e), None, 0, w) for w, e in enumerate(self.shape))
+        self.dims = dims
 
     def locs(self, cap=4096):
         """flat offsets covered by this view (None when larger than cap)"""
@@ -283,6 +292,12 @@ class Interp:
             if not (0 <= i < s):
                 self.event("oob", {"dim": d, "index": i, "extent": s}, node)
             off += i * k
+        # against the tensor the window was cut from (a window may be formed larger
+        # than its base, but may not be dereferenced outside of it)
+        for bd, (ext, pt, lo, w) in enumerate(view.dims):
+            a = pt if pt is not None else lo + idx[w]
+            if not (0 <= a < ext):
+                self.event("oob", {"base_dim": bd, "index": a, "extent": ext, "through_window": True}, node)
         if not (0 <= off < len(view.st.data)):
             self.event("oob", {"flat": off, "alloc": len(view.st.data)}, node)
         return off
@@ -483,25 +498,34 @@ class Interp:
         off = base.off
         shape = []
         strides = []
+        # position of each window dimension of `base` inside the underlying tensor
+        bdims = list(base.dims)
+        sel = {}  # base window dim -> ("pt", p) | ("iv", lo, new window dim)
         for d, (w, s, k) in enumerate(zip(e.idx, base.shape, base.strides)):
             if type(w) is _S.Point:
                 p = self.ev(w.pt, env)
-                if not (0 <= p < s):
-                    self.event("oob", {"dim": d, "point": p, "extent": s, "win": True}, e)
                 off += p * k
+                sel[d] = ("pt", p)
             else:
                 lo = self.ev(w.lo, env)
                 hi = self.ev(w.hi, env)
-                # an empty / out-of-range window is reported when formed:
-                # exo's own bounds check demands 0 <= lo <= hi <= extent
-                if not (0 <= lo and hi <= s and lo <= hi):
-                    self.event(
-                        "oob", {"dim": d, "lo": lo, "hi": hi, "extent": s, "win": True}, e
-                    )
+                if hi < lo:
+                    self.event("oob", {"dim": d, "lo": lo, "hi": hi, "extent": s, "win": True, "negative_extent": True}, e)
                 off += lo * k
+                sel[d] = ("iv", lo, len(shape))
                 shape.append(hi - lo)
                 strides.append(k)
-        return View(base.st, off, strides, shape)
+        ndims = []
+        for ext, pt, lo0, wd in bdims:
+            if pt is not None:
+                ndims.append((ext, pt, 0, 0))
+            else:
+                c = sel[wd]
+                if c[0] == "pt":
+                    ndims.append((ext, lo0 + c[1], 0, 0))
+                else:
+                    ndims.append((ext, None, lo0 + c[1], c[2]))
+        return View(base.st, off, strides, shape, tuple(ndims))
 
     # ------------------------------------------------------------------
     # statements
@@ -743,7 +767,7 @@ class Interp:
             if a.idx:
                 idx = [self.ev(i, env) for i in a.idx]
                 off = self._flat(v, idx, a)
-                return View(v.st, off, (), ())
+                return View(v.st, off, (), (), ())
             return v
         if c is _S.WindowExpr:
             return self.window(a, env)
@@ -752,4 +776,4 @@ class Interp:
         self.nalloc += 1
         st = Storage(self.nalloc, 1, "<tmp>")
         st.data[0] = val
-        return View(st, 0, (), ())
+        return View(st, 0, (), (), ())
